@@ -159,7 +159,7 @@ def str_value(avoid: frozenset = frozenset()):
                          "```", "$", "§", "<x>", "{y}", "a,b", "trailing ", " leading", "café", "é",
                          "\U0001F600 smile", "ünïcödé", "//x", "//cdn.example.com/lib.js", "/usr/bin", "./x", "--flag", "-x",
                          # expression shapes with a reserved word as an operand (must stay quoted)
-                         "draft→null", "review→false", "a⊕true", "x⇌vs", "null→a", "true∧b", "a→b→null", "NAME<null>", "NAME<true,b>"]).map(S("special")),
+                         "speed⇌cost⇌quality", "a⇌b⇌c", "draft→null", "review→false", "a⊕true", "x⇌vs", "null→a", "true∧b", "a→b→null", "NAME<null>", "NAME<true,b>"]).map(S("special")),
         hostile.map(S("hostile")), hostile.map(S("hostile")),
         nearbare().map(S("nearbare")), nearbare().map(S("nearbare")),
     ]
